@@ -1019,6 +1019,7 @@ class C02(PersistProfile):
         # bytes than its size (initialized_size / contents assigned above size: outside C01's
         # and C19's domain, so nothing is said about loading such a file)
         c["allow_overlong"] = r.random() < 0.5
+        c["allow_ir_version"] = r.random() < 0.5
         return c
 
     def nontrivial(self, w):
